@@ -269,7 +269,8 @@ package shimagent
 //@   modifies mstate(addrof(s.mu)), mapof(s.certs), mapof(s.upstreamSSHCACertCache)
 //@   let f0 = old(calls(filter))
 //@   let g0 = old(calls(ExtendedAgent.SignWithFlags))
-//@   let c0 = old(calls(CastSSHPublicKeyToCertificate))
+//@   # the purge casts the listed keys too: the cast of the requested key is the last one of the call
+//@   let c0 = calls(CastSSHPublicKeyToCertificate) - 1
 //@   ensures unheld(s) && inv(s) && inv2(s)
 //@   ensures [one-critical-section] calls(RWMutex.Lock) == old(calls(RWMutex.Lock)) + 1 && calls(RWMutex.Unlock) == old(calls(RWMutex.Unlock)) + 1
 //@   ensures [locked-refuses] old(s.locked) ==> (result0 == nil && result1 != nil && calls(ExtendedAgent.SignWithFlags) == g0 && calls(filter) == f0)
@@ -277,6 +278,8 @@ package shimagent
 //@   ensures [purge-before-signing] (!old(s.locked) && key != nil) ==> (calls(filter) == f0 + 1 && arg(filter, f0, 0) == s)
 //@   ensures [purge-failure-surfaces] (!old(s.locked) && key != nil && ret(filter, f0, 2) != nil) ==> (result0 == nil && result1 == ret(filter, f0, 2) && calls(ExtendedAgent.SignWithFlags) == g0)
 //@   ensures [at-most-one-underlying-signature] calls(ExtendedAgent.SignWithFlags) <= g0 + 1
+//@   ensures [the-requested-key-is-cast-last] (!old(s.locked) && key != nil && ret(filter, f0, 2) == nil) ==>
+//@     (c0 >= old(calls(CastSSHPublicKeyToCertificate)) && arg(CastSSHPublicKeyToCertificate, c0, 0) == key)
 //@   ensures [in-memory-certificate-signs-with-its-plain-key] (!old(s.locked) && key != nil && ret(filter, f0, 2) == nil &&
 //@     ret(CastSSHPublicKeyToCertificate, c0, 1) == nil && (keyhash(key) in dom(s.certs))) ==>
 //@     (calls(ExtendedAgent.SignWithFlags) == g0 + 1 && arg(ExtendedAgent.SignWithFlags, g0, 0) == s.agent &&
